@@ -32,6 +32,9 @@ import (
 
 var quiet = slog.New(slog.NewTextHandler(io.Discard, nil))
 
+// a logger that wants debug output (and throws it away)
+var debugQuiet = slog.New(slog.NewTextHandler(io.Discard, &slog.HandlerOptions{Level: slog.LevelDebug}))
+
 // ---- pristine package state (saved at start, restored before every world)
 
 type pristine struct {
@@ -163,13 +166,41 @@ func epKey(e *op.Endpoint) string {
 	return "ep:" + e.Relative() + "|" + e.Absolute("")
 }
 
+// corsKey: deep content of a cors.Options, EVERY field (by reflection, so that fields added later are covered):
+// slices through their capacity, functions by code pointer, interfaces / pointers (Logger) by identity.
 func corsKey(c *cors.Options) string {
 	if c == nil {
 		return ""
 	}
-	return fmt.Sprintf("cors:%s|%s|%s|%s|%v|%v|%d|%v|%v|%v|%s|%s|%s", sliceKey(c.AllowedOrigins), sliceKey(c.AllowedMethods),
-		sliceKey(c.AllowedHeaders), sliceKey(c.ExposedHeaders), c.AllowCredentials, c.AllowPrivateNetwork, c.MaxAge,
-		c.OptionsPassthrough, c.OptionsSuccessStatus, c.Debug, fnKey(c.AllowOriginFunc), fnKey(c.AllowOriginRequestFunc), fnKey(c.AllowOriginVaryRequestFunc))
+	var sb strings.Builder
+	sb.WriteString("cors:")
+	v := reflect.ValueOf(c).Elem()
+	for i := 0; i < v.NumField(); i++ {
+		f := v.Field(i)
+		sb.WriteString(v.Type().Field(i).Name + "=")
+		switch f.Kind() {
+		case reflect.Slice:
+			sb.WriteString(sliceKey(f.Interface()))
+		case reflect.Func:
+			sb.WriteString(fnKey(f.Interface()))
+		case reflect.Interface, reflect.Ptr:
+			if !f.IsNil() {
+				e := f
+				if e.Kind() == reflect.Interface {
+					e = e.Elem()
+				}
+				if e.Kind() == reflect.Ptr {
+					fmt.Fprintf(&sb, "ptr:%x", e.Pointer())
+				} else {
+					fmt.Fprintf(&sb, "val:%v", e.Interface())
+				}
+			}
+		default:
+			fmt.Fprintf(&sb, "%v", f.Interface())
+		}
+		sb.WriteString("|")
+	}
+	return sb.String()
 }
 
 // ---- in-memory transport (no sockets)
@@ -477,6 +508,8 @@ type worldCfg struct {
 	spare    bool // option slices have spare capacity
 	cfgStyle int  // Endpoint.AuthStyle of the caller's oauth2.Config
 	audHas   bool // storage-owned device state: audience already contains the client id
+	debugLog bool // the caller's loggers (provider logger, legacy fallback logger) are enabled at debug level
+	srvOpt   int  // further server options in the caller's slice: 1 WithServerCORSOptions(the caller's *cors.Options), 2 WithHTTPMiddleware, 3 both
 	sigAlg   int  // index into sigAlgs: the signing algorithm of every OP of this world (0 = the default ES256)
 }
 
@@ -522,6 +555,7 @@ type world struct {
 	inst         map[int]any
 	stores       map[int]*refstore.Store
 	tok          *tokens
+	logr         *slog.Logger // the caller's logger
 }
 
 var epNames = []string{"EAuth", "EToken", "EIntro", "EUserinfo", "ERevoke", "EEndSession", "ECheckSession", "EKeys", "EDevice"}
@@ -556,6 +590,10 @@ func newWorld(cfg worldCfg) *world {
 	}
 	w.backend = f
 	w.runID = runCounter
+	w.logr = quiet
+	if cfg.debugLog {
+		w.logr = debugQuiet
+	}
 	w.issuerFns = [2]func(bool) (op.IssuerFromRequest, error){op.IssuerFromHost(""), op.IssuerFromForwardedOrHost("")}
 	w.sharedCfg = provCfg()
 	w.sharedKS = &op.OpenIDKeySet{Storage: f.Store}
@@ -615,7 +653,6 @@ func newWorld(cfg worldCfg) *world {
 	w.idhOpts = mkSlice(cfg.spare, op.WithSupportedIDTokenHintSigningAlgorithms(sigAlgNames()...))
 	w.rpScopes = mkSlice(cfg.spare, "openid", "profile", "offline_access")
 	w.rpVerOpts = mkSlice(cfg.spare, rp.WithSupportedSigningAlgorithms(sigAlgNames()...))
-	w.srvOpts = mkSlice(cfg.spare, op.WithFallbackLogger(quiet))
 	w.oauthCfg = &oauth2.Config{ClientID: "web", ClientSecret: "web-secret", RedirectURL: "https://web.example.com/cb",
 		Scopes: []string{"openid"}, Endpoint: oauth2.Endpoint{AuthURL: opfix.Issuer + "/authorize", TokenURL: opfix.Issuer + "/oauth/token",
 			AuthStyle: oauth2.AuthStyle(cfg.cfgStyle)}}
@@ -629,6 +666,14 @@ func newWorld(cfg worldCfg) *world {
 	co.AllowCredentials = false
 	co.AllowOriginFunc = nil
 	w.corsOpt = &co
+	so := []op.ServerOption{op.WithFallbackLogger(w.logr)}
+	if cfg.srvOpt&1 != 0 {
+		so = append(so, op.WithServerCORSOptions(w.corsOpt))
+	}
+	if cfg.srvOpt&2 != 0 {
+		so = append(so, op.WithHTTPMiddleware(ic))
+	}
+	w.srvOpts = mkSlice(cfg.spare, so...)
 	return w
 }
 
@@ -685,6 +730,7 @@ func (w *world) snapshot(inst int, kind string) []lv {
 	add("(LArg 2)", w.reg.id(fnKey(w.issuerFns[1])))
 	add("(LArg 3)", w.reg.id(fmt.Sprintf("opcfg:%+v", *w.sharedCfg)))
 	add("(LArg 4)", w.reg.id(ptrKey(w.sharedKS)))
+	add("(LArg 5)", w.reg.id(corsKey(w.corsOpt))) // the caller's *cors.Options (WithCORSOptions / WithServerCORSOptions), deep
 	add("(LStor 1)", w.reg.id(sliceKey(w.devState.Audience)))
 	if w.flowState != nil {
 		add("(LStor 2)", w.reg.id(sliceKey(w.flowState.Audience)))
